@@ -104,6 +104,12 @@ inductive Use where
   | get (name : String) (d : DVal)
   | superCall (frm : Option Nat) (givenPos : Nat) (given : List String)
   | call (t : Target) (givenPos : Nat) (given : List String)
+  /-- `kwargs.pop(name, d)` written INSIDE the argument list of the forwarding call that precedes it in the
+      list (as a positional argument, as the value of a hard-coded keyword, inside arithmetic):
+      `super().__init__(label=kwargs.pop("title", "untitled"), **kwargs)`.  The list is in AST-visit order
+      (the visitor records the call, then descends into its arguments); the interpreter evaluates the
+      arguments BEFORE the call binds, see `runUses`.  (A nested `kwargs.get` is a plain `.get` after the call.) -/
+  | popIn (name : String) (d : DVal)
 deriving DecidableEq, Repr
 
 inductive Guard where
@@ -283,6 +289,7 @@ def collect (rec : Frame → Out) (P : Prog) (wh : Where) : List Use → Acc →
   | [], a => .ok a
   | .pop n d :: us, a => collect rec P wh us { a with lists := a.lists ++ [(true, [popParam n d])] }
   | .get n d :: us, a => collect rec P wh us { a with lists := a.lists ++ [(true, [popParam n d])] }
+  | .popIn n d :: us, a => collect rec P wh us { a with lists := a.lists ++ [(true, [popParam n d])] }
   | .superCall frm k given :: us, a =>
     match superFrame P wh frm with
     | none => collect rec P wh us (addForward a k given [] true)
@@ -499,16 +506,25 @@ def forwardOK (rec : Frame → String → Bool) (P : Prog) (wh : Where) (n : Str
       if n ∈ boundPositionally k c then false             -- got multiple values for argument
       else rec fr n
 
-/-- execute the statements in order; `present` = `n` is still a key of `kwargs` -/
+/-- the names popped inside the argument list of the call whose uses-list tail this is -/
+def nestedPops : List Use → List String
+  | .popIn m _ :: us => m :: nestedPops us
+  | _ => []
+
+/-- execute the statements in order; `present` = `n` is still a key of `kwargs`.
+    EVALUATION ORDER: Python evaluates the argument expressions of a call left to right and unpacks
+    `**kwargs` (written last) after them, all BEFORE the callee binds — so the pops nested in the
+    argument list (`nestedPops`, listed after the call) have consumed their names when `kwargs` is forwarded. -/
 def runUses (rec : Frame → String → Bool) (P : Prog) (wh : Where) (n : String) : List Use → Bool → Bool
   | [], _ => true
   | .pop m _ :: us, present => runUses rec P wh n us (present && m != n)
+  | .popIn m _ :: us, present => runUses rec P wh n us (present && m != n)
   | .get _ _ :: us, present => runUses rec P wh n us present
   | .superCall frm k given :: us, present =>
-    (if present then forwardOK rec P wh n (.superCall frm k given) k given else true)
+    (if present && !(nestedPops us).contains n then forwardOK rec P wh n (.superCall frm k given) k given else true)
       && runUses rec P wh n us present
   | .call t k given :: us, present =>
-    (if present then forwardOK rec P wh n (.call t k given) k given else true)
+    (if present && !(nestedPops us).contains n then forwardOK rec P wh n (.call t k given) k given else true)
       && runUses rec P wh n us present
 
 def branchIds : List GUse → List Nat
@@ -611,14 +627,30 @@ def Use.givenPos : Use → Nat
   | .call _ k _ => k
   | _ => 0
 
-/-- a straight-line body in the documented shape: `kwargs.pop` statements, then ONE forwarding call -/
-def splitSL : List Use → Option (List (String × DVal) × Use)
+/-- the pops nested in the argument list of the last call: nothing else may follow -/
+def takePopIns : List Use → Option (List (String × DVal))
+  | [] => some []
+  | .popIn n d :: us =>
+    match takePopIns us with
+    | some ns => some ((n, d) :: ns)
+    | none => none
+  | _ => none
+
+/-- a straight-line body in the documented shape: `kwargs.pop` statements, then ONE forwarding call
+    (possibly with pops nested in its argument list): (pops, call, nested pops) -/
+def splitSL : List Use → Option (List (String × DVal) × Use × List (String × DVal))
   | [] => none
-  | [.superCall frm k g] => some ([], .superCall frm k g)
-  | [.call t k g] => some ([], .call t k g)
+  | .superCall frm k g :: us =>
+    match takePopIns us with
+    | some ns => some ([], .superCall frm k g, ns)
+    | none => none
+  | .call t k g :: us =>
+    match takePopIns us with
+    | some ns => some ([], .call t k g, ns)
+    | none => none
   | .pop n d :: us =>
     match splitSL us with
-    | some (ps, f) => some ((n, d) :: ps, f)
+    | some (ps, f, ns) => some ((n, d) :: ps, f, ns)
     | none => none
   | _ => none
 
@@ -634,7 +666,7 @@ def slOK (c : Callable) : Bool :=
     (noBranch c.uses &&
       match splitSL (liveUses c.uses) with
       | none => false
-      | some (ps, f) => ps.all (fun x => decide (x.1 ∉ f.given)))
+      | some (ps, f, ns) => (ps ++ ns).all (fun x => decide (x.1 ∉ f.given)))
 
 /-- `k` hard-coded positionals fit the leading positional-or-keyword parameters of the callee -/
 def posOK (k : Nat) (c : Callable) : Bool :=
@@ -653,6 +685,7 @@ deriving DecidableEq, Repr
 def useOK (site : Site) (self nMeths : Nat) : Use → Bool
   | .pop _ _ => true
   | .get _ _ => true
+  | .popIn _ _ => true
   | .superCall _ _ _ => site = .init
   | .call (.entry j) _ _ => decide (j < self)
   | .call (.selfMeth j) _ _ => site = .init && decide (j < nMeths)
@@ -782,6 +815,7 @@ def CId.valid (P : Prog) : CId → Bool
 def useDefs : Use → List Param
   | .pop n d => [popParam n d]
   | .get n d => [popParam n d]
+  | .popIn n d => [popParam n d]
   | _ => []
 
 /-- the definitions of one callable: its signature and its pops/gets -/
@@ -810,6 +844,7 @@ def sameSig (p q : Param) : Prop :=
 def usePops : Use → List (String × DVal)
   | .pop n d => [(n, d)]
   | .get n d => [(n, d)]
+  | .popIn n d => [(n, d)]
   | _ => []
 
 /-- every `kwargs.pop/get(name, default)` of the program -/
@@ -827,6 +862,10 @@ def dfltAgrees (d : DVal) : Dflt → Bool
     bodies; and the program text itself holds no `Conditional` default / tuple origin -/
 def noPopClash (P : Prog) : Bool :=
   P.pops.all (fun x => P.defs.all (fun q => q.name != x.1 || dfltAgrees x.2 q.dflt)) &&
-  P.defs.all (fun q => !q.otuple && !q.dflt.isCond)
+  P.defs.all (fun q => !q.otuple && !q.dflt.isCond) &&
+  -- (pops nested in argument lists are covered by `C13_exact`, not by this syntactic shortcut)
+  P.callables.all (fun c => c.uses.all (fun g => match g.use with
+    | .popIn _ _ => false
+    | _ => true))
 
 end Jap.Resolver
